@@ -13,7 +13,22 @@ import itertools
 import os
 
 from . import ref
-from .lab import BULK, BULK_MD5, BULK_N, CONTENTS, LFS, MD5, hi, make_odb, put_raw  # noqa: F401
+from .lab import (  # noqa: F401
+    BULK,
+    BULK_MD5,
+    BULK_N,
+    CONTENTS,
+    LFS,
+    MD5,
+    SPECIAL,
+    SPECIAL_MD5,
+    SPECIAL_TREE,
+    TWINS,
+    TWINS_MD5,
+    hi,
+    make_odb,
+    put_raw,
+)
 from .world import install_seams, objects_only, store_snapshot
 
 install_seams()
@@ -134,8 +149,10 @@ TREES = {
 }
 # one directory with BULK_N files (crosses every batching / paging constant)
 TREES["TB"] = {f"f{i:04d}": f"bulk{i}" for i in range(BULK_N)}
-MD5 = dict(MD5, **BULK_MD5)
-CONTENTS = dict(CONTENTS, **BULK)
+TREES["TS"] = dict(SPECIAL_TREE)                      # special names (see lab.SPECIAL_NAMES)
+TREES["TW"] = {"a": "tw1", "b": "tw2"}                # two objects sharing the two-character fan-out prefix
+MD5 = dict(MD5, **BULK_MD5, **SPECIAL_MD5, **TWINS_MD5)
+CONTENTS = dict(CONTENTS, **BULK, **SPECIAL, **TWINS)
 LISTING = {t: {rel: MD5[c] for rel, c in files.items()} for t, files in TREES.items()}
 TREE_BYTES = {t: ref.tree_bytes(l) for t, l in LISTING.items()}
 TREE_OID = {t: ref.md5(b) + ".dir" for t, b in TREE_BYTES.items()}
@@ -143,6 +160,8 @@ OID_TREE = {v: k for k, v in TREE_OID.items()}
 FILE_OID = {c: MD5[c] for c in ("x", "y", "z", "w", "v", "e")}
 OID_BYTES = {MD5[c]: CONTENTS[c] for c in FILE_OID}
 OID_BYTES.update({BULK_MD5[c]: BULK[c] for c in BULK})
+OID_BYTES.update({SPECIAL_MD5[c]: SPECIAL[c] for c in SPECIAL})
+OID_BYTES.update({TWINS_MD5[c]: TWINS[c] for c in TWINS})
 OID_BYTES.update({TREE_OID[t]: TREE_BYTES[t] for t in TREES})
 
 SCENARIOS = {
@@ -154,6 +173,8 @@ SCENARIOS = {
     "three": ["T1", "T2", "T5"],
     "twopaths+sharing": ["T3", "T1", "T2"],
     "bulk": ["TB"],
+    "special": ["TS"],
+    "twins": ["TW", "T1"],
 }
 
 
@@ -215,7 +236,8 @@ class XWorld:
         self.w = w
         self.trees = trees
         self.hash_name = hash_name
-        self.src = make_odb(src_kind, w.p("src"), hash_name=hash_name)
+        # (the source directory's name extends the destination's: "dest" / "dest.src")
+        self.src = make_odb(src_kind, w.p("dest.src"), hash_name=hash_name)
         allo = files_of_trees(trees) + [TREE_OID[t] for t in trees]
         fill_store(self.src, [o for o in allo if o not in src_missing])
         for o in corrupt:
